@@ -82,6 +82,134 @@ theorem split_correct (h : Header) (body : Bytes) :
     rw [number_get h true _ 0 _ j hj]
     simp
 
+/-- **Block round-trip.**  Every block whose header fields are in range and whose data fits a block encodes, and decoding
+the encoding gives the block back (header and data identical, checksum accepted). -/
+theorem block_roundtrip (h : Header) (data : Bytes) (hr : InRange h) (adata : AllBytes data) (hn : data.length ≤ 244) :
+    ∃ raw, Block.encode ⟨h, data⟩ = .ok raw ∧ raw.length = data.length + 13 ∧ AllBytes raw ∧
+      Block.decode raw = .ok (some ⟨h, data⟩) := by
+  obtain ⟨hb, henc, hhb, hdec⟩ := header_roundtrip h hr
+  have ahb : AllBytes hb := Py.packBE_allBytes _ _ henc
+  have hsum : (hb ++ data).sum < 256 ^ 2 := by
+    have := sum_le_of_allBytes (hb ++ data) (allBytes_append.mpr ⟨ahb, adata⟩)
+    simp only [List.length_append, hhb] at this
+    omega
+  refine ⟨_, encode_struct h data hb henc hhb ahb adata (by omega), ?_, ?_, ?_⟩
+  · simp [hhb]; omega
+  · intro x hx
+    simp only [List.mem_cons, List.mem_append] at hx
+    rcases hx with hx | hx | hx | hx
+    · omega
+    · exact ahb x hx
+    · exact adata x hx
+    · exact be_allBytes _ _ x hx
+  · obtain ⟨h', hdec', _, hds⟩ := decode_struct (10 + data.length) hb data (be 2 ((hb ++ data).sum)) hhb (by simp) (by omega) ahb
+    rw [hds, if_pos rfl, ofBe_be_of_lt _ _ hsum, if_pos rfl]
+    rw [hdec] at hdec'
+    cases hdec'
+    rfl
+
+/-- **Corruption is never accepted.**  Take the encoding of any valid block and replace the byte at any one offset `i`
+(length byte, header, data or checksum) by any different byte value `v`: decoding the result never yields a block —
+it is either a `struct.error` or the `None` of a checksum mismatch. -/
+theorem corruption_rejected (h : Header) (data : Bytes) (hr : InRange h) (adata : AllBytes data) (hn : data.length ≤ 244)
+    (raw : Bytes) (henc : Block.encode ⟨h, data⟩ = .ok raw) (i v : Nat) (hi : i < raw.length) (hv : v < 256)
+    (hne : raw[i]? ≠ some v) :
+    ∀ b, Block.decode (raw.set i v) ≠ .ok (some b) := by
+  obtain ⟨hb, henc', hhb, _⟩ := header_roundtrip h hr
+  have ahb : AllBytes hb := Py.packBE_allBytes _ _ henc'
+  have hsum : (hb ++ data).sum < 256 ^ 2 := by
+    have := sum_le_of_allBytes (hb ++ data) (allBytes_append.mpr ⟨ahb, adata⟩)
+    simp only [List.length_append, hhb] at this
+    omega
+  rw [encode_struct h data hb henc' hhb ahb adata (by omega)] at henc
+  cases henc
+  intro b
+  -- where does the altered offset fall?
+  rcases i with _ | j
+  · -- the length byte
+    simp only [List.set_cons_zero]
+    obtain ⟨h', _, _, hds⟩ := decode_struct v hb data (be 2 ((hb ++ data).sum)) hhb (by simp) hv ahb
+    have : v ≠ 10 + data.length := by
+      intro e; apply hne; simp [e]
+    rw [hds, if_neg this]; intro c; cases c
+  · simp only [List.set_cons_succ]
+    simp only [List.length_cons, List.length_append, be_length, hhb] at hi
+    simp only [List.getElem?_cons_succ] at hne
+    by_cases hj : j < 10
+    · -- a header byte
+      have hset : (hb ++ (data ++ be 2 ((hb ++ data).sum))).set j v = hb.set j v ++ (data ++ be 2 ((hb ++ data).sum)) := by
+        rw [List.set_append]; simp [hhb, hj]
+      rw [hset]
+      have hjl : j < hb.length := by omega
+      have ahb' : AllBytes (hb.set j v) := by
+        intro x hx
+        rcases List.mem_or_eq_of_mem_set hx with hx | hx
+        · exact ahb x hx
+        · omega
+      obtain ⟨h', _, _, hds⟩ := decode_struct (10 + data.length) (hb.set j v) data (be 2 ((hb ++ data).sum)) (by simp [hhb]) (by simp) (by omega) ahb'
+      rw [hds, if_pos rfl, ofBe_be_of_lt _ _ hsum]
+      have hs := sum_set hb j v hjl
+      have hne' : hb[j] ≠ v := by
+        intro e; apply hne
+        rw [List.getElem?_append_left hjl, List.getElem?_eq_getElem hjl, e]
+      have : (hb.set j v ++ data).sum ≠ (hb ++ data).sum := by
+        simp only [List.sum_append]; omega
+      rw [if_neg this]; intro c; cases c
+    · by_cases hj2 : j < 10 + data.length
+      · -- a data byte
+        have hset : (hb ++ (data ++ be 2 ((hb ++ data).sum))).set j v = hb ++ (data.set (j - 10) v ++ be 2 ((hb ++ data).sum)) := by
+          have h1 : ¬ j < hb.length := by omega
+          have h2 : j - 10 < data.length := by omega
+          rw [List.set_append, if_neg h1, hhb, List.set_append, if_pos h2]
+        rw [hset]
+        have hjl : j - 10 < data.length := by omega
+        obtain ⟨h', _, _, hds⟩ := decode_struct (10 + data.length) hb (data.set (j - 10) v) (be 2 ((hb ++ data).sum)) hhb (by simp) (by omega) ahb
+        rw [hds]
+        have : 10 + data.length = 10 + (data.set (j - 10) v).length := by simp
+        rw [if_pos this, ofBe_be_of_lt _ _ hsum]
+        have hs := sum_set data (j - 10) v hjl
+        have hne' : data[j - 10] ≠ v := by
+          intro e; apply hne
+          rw [List.getElem?_append_right (by omega), hhb, List.getElem?_append_left hjl, List.getElem?_eq_getElem hjl, e]
+        have : (hb ++ data.set (j - 10) v).sum ≠ (hb ++ data).sum := by
+          simp only [List.sum_append]; omega
+        rw [if_neg this]; intro c; cases c
+      · -- a checksum byte
+        have hset : (hb ++ (data ++ be 2 ((hb ++ data).sum))).set j v = hb ++ (data ++ (be 2 ((hb ++ data).sum)).set (j - 10 - data.length) v) := by
+          have h1 : ¬ j < hb.length := by omega
+          have h2 : ¬ j - 10 < data.length := by omega
+          rw [List.set_append, if_neg h1, hhb, List.set_append, if_neg h2]
+        rw [hset]
+        obtain ⟨h', _, _, hds⟩ := decode_struct (10 + data.length) hb data ((be 2 ((hb ++ data).sum)).set (j - 10 - data.length) v) hhb (by simp) (by omega) ahb
+        rw [hds, if_pos rfl]
+        have hk : j - 10 - data.length < 2 := by omega
+        have hne' : (be 2 ((hb ++ data).sum))[j - 10 - data.length]? ≠ some v := by
+          intro e; apply hne
+          rw [List.getElem?_append_right (by omega), hhb, List.getElem?_append_right (by omega)]
+          exact e
+        have : (hb ++ data).sum ≠ ofBe ((be 2 ((hb ++ data).sum)).set (j - 10 - data.length) v) := by
+          generalize hS : (hb ++ data).sum = S at *
+          have hbe : be 2 S = [S / 256 % 256, S % 256] := by simp [be]
+          rw [hbe] at hne' ⊢
+          have hS2 : S < 65536 := by omega
+          rcases Nat.lt_or_ge (j - 10 - data.length) 1 with hk0 | hk1
+          · have : j - 10 - data.length = 0 := by omega
+            rw [this] at hne' ⊢
+            simp only [List.set_cons_zero, ofBe, List.length_cons, List.length_nil]
+            simp at hne'
+            omega
+          · have : j - 10 - data.length = 1 := by omega
+            rw [this] at hne' ⊢
+            simp only [List.set_cons_succ, List.set_cons_zero, ofBe, List.length_cons, List.length_nil]
+            simp at hne'
+            omega
+        rw [if_neg this]; intro c; cases c
+
+/-- non-vacuity: the hypotheses of `block_roundtrip`/`corruption_rejected` hold for a full 244-byte block -/
+example : InRange ⟨7, 1, 1, 2, 1, true, true, false⟩ ∧ AllBytes (List.replicate 244 255) ∧ (List.replicate 244 255).length ≤ 244 := by
+  refine ⟨by decide, ?_, by rw [List.length_replicate]; exact Nat.le_refl _⟩
+  intro x hx; rw [List.mem_replicate] at hx; omega
+
 /-- non-vacuity / sanity: a 245-byte body gives two blocks of 244 and 1 bytes -/
 example : ((split ⟨1, 2, 3, 4, 0, false, true, true⟩ (List.replicate 245 7)).map (fun b => (b.header.block, b.header.last_block, b.data.length)))
     = [(1, false, 244), (2, true, 1)] := by decide +kernel
